@@ -29,7 +29,7 @@ func (p *Prop) Meta() simkit.Meta {
 		Real: []string{"stats.StreamStats.Add", "stats.StreamStats.Combine", "stats.StreamStats.{Weight,Mean,Variance,StdDev,RMS}", "fields Count/Total/Min/Max"},
 		Stub: []string{"stream source", "router", "reducer (merge tree)"},
 		Assumptions: []string{
-			"values are finite with |x| in [1e-6,1e12] or 0 (optionally all scaled by 2^+-300 or 2^+-460), so that squares neither overflow nor underflow (the statement speaks of large offsets, not of overflow); counts are inflated to boundary values up to 2^40 by doubling merges, but not together with that scaling (squares times counts overflow in the merge formula)",
+			"values are finite with |x| in [1e-6,1e12] or 0 (optionally all scaled by 2^+-300 or 2^+-460; or a same-sign stream with |x| in 1e153..1.2e154 and relative spread <= 1e-9), so that squares neither overflow nor underflow (the statement speaks of large offsets, not of overflow); counts are inflated to boundary values up to 2^40 by doubling merges, but not together with that scaling (squares times counts overflow in the merge formula)",
 			"struct copies of a StreamStats used as checkpoints are not generated; self-merge s.Combine(s) IS generated (rarely), with the documented meaning 'as if all samples added to o were added to s', i.e. every value counted twice - the pinned code computes exactly that",
 			"tolerances are derived from the data: |Total-ref| <= 8(n+4)eps*sum|x|, mean 8(n+4)eps*max|x|, variance abs error <= 8(n+4)^1.5*eps*sigma*sqrt(sigma^2+mean-square); observed/allowed is reported as max_error_over_bound",
 			"an empty accumulator is only required to report Count==0 and Total==0 and to behave as empty in every later event",
@@ -81,7 +81,7 @@ func (c *ctx) fail(oracle, op, sig, format string, a ...any) {
 
 // genValues draws the stream.
 func genValues(g simkit.G, n int) ([]float64, string) {
-	fam := g.Pick(3, 3, 2, 2, 2)
+	fam := g.Pick(6, 6, 4, 4, 4, 1)
 	xs := make([]float64, n)
 	name := ""
 	switch fam {
@@ -137,6 +137,20 @@ func genValues(g simkit.G, n int) ([]float64, string) {
 			}
 			xs[i] = m
 		}
+	case 5:
+		// same-sign values whose squares are just representable (|x| between
+		// 1e153 and 1.2e154) and whose relative spread is at most 1e-9: every statistic is
+		// finite, but a product of a mean of squares with a count is not
+		m := math.Pow(10, g.Uniform(153, 154)) * 1.2
+		d := []float64{0, 1e-9, 1e-12}[g.Intn(3)] // (a wider spread times a count overflows in the library's own merge formula)
+		if g.Chance(1, 2) {
+			m = -m
+		}
+		name = fmt.Sprintf("top-of-range(spread=%g)*2^0", d)
+		for i := range xs {
+			xs[i] = m * (1 - d*g.Unit())
+		}
+		return xs, name
 	}
 	if g.Chance(1, 10) && n > 0 {
 		// the whole stream scaled by an exact power of two near the ends of the
@@ -488,7 +502,17 @@ func (p *Prop) Run(t *simhook.Tape, opt simkit.RunOpt) *simkit.RunResult {
 			// both-empty Combine must still work)
 			if c.viol == nil && g.Chance(1, 2) {
 				i := g.Intn(nacc)
-				c.add(i, float64(g.Range(-5, 5)))
+				v := float64(g.Range(-5, 5))
+				if strings.HasPrefix(fam, "top-of-range") {
+					// a small value next to squares of 1e307 takes the merge
+					// formula into its overflow corner (difference of the
+					// means of squares times a count)
+					v = 0
+					if len(xs) > 0 {
+						v = xs[0]
+					}
+				}
+				c.add(i, v)
 			}
 		}
 		// order law: the same multiset through a second drawn history
